@@ -16,6 +16,12 @@ func (k Keeper) EndBlocker(ctx sdk.Context) {
 
 	// NOTE: ignore end of block if coinomics is disabled
 	if !params.EnableCoinomics {
+		// forget the last mint timestamp, so that the first block after
+		// re-activation only records its time instead of minting for the
+		// whole period during which coinomics was disabled
+		if !k.GetPrevBlockTS(ctx).IsZero() {
+			k.SetPrevBlockTS(ctx, sdk.ZeroInt())
+		}
 		return
 	}
 
